@@ -17,7 +17,7 @@ from .. import common as C
 SUMMARY_FIELDS = ["id", "prop", "desc", "corner", "expect", "cls", "direct", "why",
                   "f1", "f2", "f3", "r1", "r2", "r3", "ckey", "chash", "csalt", "session",
                   "skey", "skeyid", "ssalt", "shash1", "encseen", "encopened", "encpkt", "fault", "errtext", "rejected",
-                  "postreq", "after_encrypted", "postplain", "hang_retried", "storecalls", "afterchatter", "plainchatter", "encnotification"]
+                  "postreq", "after_encrypted", "postplain", "hang_retried", "storecalls", "afterchatter", "plainchatter", "encnotification", "latestep"]
 
 CLASS_OF_VERDICT = {"success": "ok", "failed": "err", "panicked": "panic", "stalled": "hang"}
 
@@ -201,6 +201,9 @@ def run(ctx, prop, props_file, rule, distribution_note):
     for r in rows:
         evals += 1
         c = cases[r["id"]]
+        if r.get("latestep", "") not in ("", "0"):
+            stats["client_held_300ms_before_it_listened_for_answer_%s" % r["latestep"]] = \
+                stats.get("client_held_300ms_before_it_listened_for_answer_%s" % r["latestep"], 0) + 1
         if c.get("Corner"):
             nt = c["Corner"]
         elif c.get("Fault"):
